@@ -94,29 +94,21 @@ def calcFreqT (curTs curMs refTs refMs : Nat) : Option Freq × String :=
   else if ms > Uptime.maxTwait then (none, "long")
   else
     let inv := U32 - 1 - td
-    let backward := td > inv
-    let eff := if backward then inv else td
-    let pre : Option String :=
-      if backward then
-        if inv < Uptime.minTsDiff then some "back-small"
-        else if ms < Uptime.tstampGrace ∧
-                inv * Uptime.tstampGrace * Uptime.maxFinalHz.2 > Uptime.maxFinalHz.1 * Uptime.backwardScale then some "back-grace"
-        else none
-      else if td < Uptime.minTsDiff then some "ticks-small" else none
-    match pre with
-    | some t => (none, t)
-    | none =>
+    -- `is_backward = ts_diff > !ts_diff`: withheld
+    if td > inv then (none, "backward")
+    else if td < Uptime.minTsDiff then (none, "ticks-small")
+    else
       let d := max ms 1
-      let n := eff * Uptime.freqScale
+      let n := td * Uptime.freqScale
       -- `(MIN_FINAL_HZ..=MAX_FINAL_HZ).contains(&raw_freq)`
       if n * Uptime.minFinalHz.2 < Uptime.minFinalHz.1 * d then (none, "slow")
       else if n * Uptime.maxFinalHz.2 > Uptime.maxFinalHz.1 * d then (none, "fast")
-      else (some ⟨n, d⟩, if backward then "ok-backward" else "ok")
+      else (some ⟨n, d⟩, "ok")
 
 def calcFreq (curTs curMs refTs refMs : Nat) : Option Freq := (calcFreqT curTs curMs refTs refMs).1
 
-/-- `guess_frequency(raw, base, tolerance)` for an integer base: `Some(base)` iff `raw / round(raw/base)`
-is within `base·tolerance` of `base` (`round` = half away from zero). -/
+/-- `guess_frequency(raw, base, tolerance)` for an integer base: `Some(base · m)` with
+`m = round(raw/base)` (half away from zero) iff `raw / m` is within `base·tolerance` of `base`. -/
 def guessFrequency (r : Freq) (base : Nat) (tol : Nat × Nat) : Option Nat :=
   if r.num = 0 ∨ base = 0 then none
   else
@@ -125,7 +117,7 @@ def guessFrequency (r : Freq) (base : Nat) (tol : Nat × Nat) : Option Nat :=
     else
       -- |num/(den·mult) − base| ≤ base·tol
       let lhs := (if r.num ≥ base * r.den * mult then r.num - base * r.den * mult else base * r.den * mult - r.num) * tol.2
-      if lhs ≤ base * tol.1 * r.den * mult then some base else none
+      if lhs ≤ base * tol.1 * r.den * mult then some (base * mult) else none
 
 def roundArm (x : Nat) : List (Nat × Nat × Nat × Nat) → Nat
   | [] => (x + Uptime.roundDefault.1) / Uptime.roundDefault.2 * Uptime.roundDefault.2
